@@ -456,8 +456,8 @@ fn record(out: &str, a: &Args) {
                 4 | 5 => json!({"c":"consts","v":v64(r)}),
                 6 => json!({"c":"const_type","base":"B1","data":(0..*r.pick(&[1u64,2,4,8,16])).map(|_| r.below(256)).collect::<Vec<u64>>()}),
                 7 => json!({"c":"fbreg","off":v64(r)}),
-                8 | 9 => json!({"c":"breg","reg":*r.pick(&[0u64,1,31,32,127,128,65535]),"off":v64(r)}),
-                10 => json!({"c":"regval_type","reg":*r.pick(&[0u64,31,32,300]),"base":"B1"}),
+                8 | 9 => json!({"c":"breg","reg":*r.pick(&[0u64,1,31,32,127,128,255,256,260,287,288,512,4097,65535]),"off":v64(r)}),
+                10 => json!({"c":"regval_type","reg":*r.pick(&[0u64,31,32,256,300]),"base":"B1"}),
                 11 => json!({"c":"pick","index":*r.pick(&[0u64,1,2,3,255])}),
                 12 => json!({"c":"deref","space":r.chance(1,3)}),
                 13 => json!({"c":"deref_size","space":r.chance(1,3),"size":r.below(9)}),
@@ -469,8 +469,8 @@ fn record(out: &str, a: &Args) {
                 21 => json!({"c":"call_ref","ent":*r.pick(&["T1","T2","X1","X2"])}),
                 22 => json!({"c":"convert","base":*r.pick(&["B1","none"])}),
                 23 => json!({"c":"reinterpret","base":*r.pick(&["B1","none"])}),
-                24 => json!({"c":"entry_value","sub":[{"c":"reg","reg":r.below(40)},{"c":"constu","v":v64(r)}]}),
-                25 | 26 => json!({"c":"reg","reg":*r.pick(&[0u64,31,32,1000,65535])}),
+                24 => json!({"c":"entry_value","sub":[{"c":"reg","reg":*r.pick(&[0u64,5,31,32,39,256,270,4096])},{"c":"constu","v":v64(r)}]}),
+                25 | 26 => json!({"c":"reg","reg":*r.pick(&[0u64,31,32,255,256,271,287,288,544,1000,4100,65535])}),
                 27 => json!({"c":"implicit_value","data":(0..*r.pick(&[0u64,1,3,130,130,20000,40000])).map(|_| r.below(256)).collect::<Vec<u64>>()}),
                 28 => json!({"c":"implicit_pointer","ent":*r.pick(&["T1","X1","X2"]),"off":v64(r)}),
                 29 => json!({"c":"piece","n":bv(r.boundary64() >> 4, 8)}),
